@@ -247,6 +247,26 @@ def run(repo: Repo, ctx) -> None:
                                     for x in oe[0].body):
                         raises_unresolved = True
                     guard_ok = True
+        # every element that is a key of the graph reaches the add: the only
+        # tests on the way are `<var> in graph` / `allow_unresolved`, and the
+        # loop has no continue / break
+        extra_guards = []
+        for n in ast.walk(lp):
+            if isinstance(n, (ast.Continue, ast.Break)):
+                extra_guards.append(type(n).__name__.lower())
+            if isinstance(n, ast.If):
+                t = norm(n.test)
+                if t not in (f'{var} in graph', 'not allow_unresolved',
+                             'allow_unresolved', f'{var} not in graph'):
+                    extra_guards.append(t)
+        ctx.ob('C20.R3', f'{sort_ex.qualname}:every-resolved={field}',
+               not extra_guards,
+               f'the loop over DepGraphEntry.{field} skips elements under '
+               f'{extra_guards}: a declared edge to a key of the graph is '
+               f'dropped (an item can be emitted before something it '
+               f'depends on, or a real cycle goes unreported)',
+               f'{sort_ex.module.rel()}:{lp.lineno}',
+               sample=f'{field}: only `in graph` decides')
         seen_fields[field] = sinks
         exp = expected.get(field)
         ok = exp is not None and sinks == {exp}
@@ -417,6 +437,7 @@ def run(repo: Repo, ctx) -> None:
 
     _r6(repo, ctx)
     _r7(repo, ctx)
+    _r8(repo, ctx, visit)
 
 
 def _r6(repo: Repo, ctx) -> None:
@@ -615,6 +636,115 @@ def _r7(repo: Repo, ctx) -> None:
                sample=norm(x)[:60])
     if n_f < 1:
         raise AnalysisError('C20.R7: no forward rename lookup in _trace_op')
+
+
+def _r8(repo: Repo, ctx, visit) -> None:
+    """C20.R8 necessary conditions of the soft-cycle tolerance (the counters
+    themselves stay undecided).  A CycleError raised below a weak edge must
+    travel up to the frame that was entered through the *first* weak edge;
+    every frame in between was entered with the same inherited flag (hard
+    edges pass weak_link on unchanged), so a swallow decision that reads
+    only parameters forwarded unchanged along hard edges cannot tell those
+    frames apart and would swallow the error in each of them: the item that
+    closes the cycle is then emitted after its dependent, or never."""
+    ctx.floor('C20.R8', 1)
+    fn = visit.node
+    params = {a.arg for a in fn.args.args + fn.args.kwonlyargs}
+    # parameters forwarded unchanged in every recursive call outside the
+    # weak loop
+    unchanged = set(params)
+    rec = [c for c in ast.walk(fn) if isinstance(c, ast.Call)
+           and call_name(c) == visit.name]
+    hard_calls = [c for c in rec if not (
+        isinstance(kwarg(c, 'weak_link'), ast.Constant))]
+    for c in hard_calls:
+        for p in list(unchanged):
+            v = kwarg(c, p)
+            if v is None or norm(v) != p:
+                unchanged.discard(p)
+    # (the visited item itself differs per frame)
+    unchanged.discard(fn.args.args[0].arg)
+    n = 0
+    # (the handler around the weak loop runs in the frame that *owns* the
+    # weak edge: there the frame's own flag does decide, so only the handler
+    # of the outermost try, which wraps the hard-edge loops, is examined)
+    for tr in [_outer_try(fn)]:
+        for h in (tr.handlers if tr is not None else []):
+            if h.type is None or 'CycleError' not in norm(h.type):
+                continue
+            # the decision: an `if` whose one arm re-raises
+            for st in h.body:
+                if not isinstance(st, ast.If):
+                    continue
+                arms = [st.body, st.orelse]
+                if not any(any(isinstance(x, ast.Raise) and x.exc is None
+                               for x in a) for a in arms):
+                    continue
+                n += 1
+                reads = {x.id for x in ast.walk(st.test)
+                         if isinstance(x, ast.Name)}
+                frame_only = bool(reads) and reads <= unchanged
+                ctx.ob('C20.R8',
+                       f'{visit.qualname}:swallow-decision@outer',
+                       not frame_only,
+                       f'the decision to ignore a CycleError reads only '
+                       f'{sorted(reads)}, which every frame below a weak '
+                       f'edge shares (hard edges forward it unchanged): the '
+                       f'error is swallowed in the innermost such frame '
+                       f'instead of the one entered through the weak edge, '
+                       f'and a hard cycle below a weak edge is not reported',
+                       f'{visit.module.rel()}:{st.lineno}',
+                       sample=norm(st.test))
+    if n < 1:
+        raise AnalysisError('C20.R8: the CycleError swallow decision of '
+                            'sort_ex.visit was not found')
+    # deps of sort_by_cross_refs_key: referrers are in key space; the only
+    # admissible filters are the parent-reference and self-reference
+    # exclusions and membership in a container of *keys*
+    sk = repo.func('edb.schema.delta.sort_by_cross_refs_key')
+    keyp = 'key'
+    for c in ast.walk(sk.node):
+        if not (isinstance(c, ast.Call) and any(
+                k.arg == 'deps' for k in c.keywords)):
+            continue
+        d = kwarg(c, 'deps')
+        if not isinstance(d, (ast.SetComp, ast.ListComp, ast.GeneratorExp)):
+            continue
+        var = norm(d.generators[0].target)
+        for cond in [x for g_ in d.generators for i in g_.ifs
+                     for x in (i.values if isinstance(i, ast.BoolOp) and
+                               isinstance(i.op, ast.And) else [i])]:
+            t = norm(cond)
+            ok = 'is_parent_ref' in t or t in (f'x != {var}', f'{var} != x')
+            if not ok and isinstance(cond, ast.Compare) and isinstance(
+                    cond.ops[0], ast.In) and norm(cond.left) == var:
+                cont = norm(cond.comparators[0])
+                # a container built by applying `key` to the inputs
+                for a in ast.walk(sk.node):
+                    if isinstance(a, ast.Assign) and norm(
+                            a.targets[0]) == cont and f'{keyp}(' in norm(
+                            a.value):
+                        ok = True
+                if cont == 'graph':
+                    ok = True
+            ctx.ob('C20.R8', f'sort_by_cross_refs_key:deps-filter={t[:40]}',
+                   ok,
+                   f'referrers (schema objects, i.e. keys) are filtered by '
+                   f'`{t}`: unless that container holds keys, every '
+                   f'dependency is dropped when the key is not the '
+                   f'identity and the input order is returned', sk.loc,
+                   sample=t)
+
+
+def _outer_try(fn):
+    """the try statement that wraps the hard-edge loops (the outermost)"""
+    trs = [t for t in ast.walk(fn) if isinstance(t, ast.Try)]
+    inner = {id(x) for t in trs for x in ast.walk(t) if x is not t and
+             isinstance(x, ast.Try)}
+    for t in trs:
+        if id(t) not in inner:
+            return t
+    return None
 
 
 class _Wrap:
